@@ -4,7 +4,9 @@ OFFSETS = ['harness/offsets_http.cc']
 AWI = '_ZN8Pistache3Tcp9Transport14asyncWriteImplEi'
 RESOLVE = '_ZNK8Pistache5Async8ResolverclIlEEbOT_'
 REJECT = '_ZNK8Pistache5Async9RejectionclINS_5ErrorEEEbT_'
-UNITS = {'tw': dict(src=TR, mode='sel', roots=[AWI, '_ZN8Pistache3Tcp9Transport10WriteEntryD2Ev'], stubs=[RESOLVE, REJECT])}
+P = '_ZN8Pistache3Tcp9Transport'
+UNITS = {'ready': dict(src=TR, mode='sel', roots=[P + '7onReadyERKNS_3Aio5FdSetE'], stubs_re=r'^_ZNK?8Pistache3Tcp9Transport(16handleTimerQueueEv|15handlePeerQueueEv|12handleNotifyEv|14handleIncomingE|11handleTimerE|14asyncWriteImplEi|8isPeerFd|9isTimerFd|7getPeer)|^_ZN8Pistache5QueueINS_3Tcp9Transport10WriteEntryEE7popSafeEv'),
+         'tw': dict(src=TR, mode='sel', roots=[AWI, '_ZN8Pistache3Tcp9Transport10WriteEntryD2Ev'], stubs=[RESOLVE, REJECT])}
 def inst(ne, sz, calls, tiers, hard=False, witness=True, timeout=1500):
     d = {'ONLY_C07': None, 'NE': ne, 'SZ': sz, 'CALLS': calls, 'VP_DISPATCH_ru8p_u8p': None}
     if hard: d['HARD_ERRORS'] = None
@@ -12,6 +14,8 @@ def inst(ne, sz, calls, tiers, hard=False, witness=True, timeout=1500):
                 bound='%d pending entries (raw or file, sizes 0..%d, head entry with any resume offset, any flags), %d invocations, every short-write/would-block%s script' % (ne, sz, calls, '/socket-error' if hard else ''),
                 desc='after EAGAIN: no further send attempt in the same invocation (no spinning, loops terminate), Read|Write interest armed exactly once, lock released on return, other descriptors untouched; once the socket accepts data again everything pending is delivered')
 HARNESSES = [
+  dict(name='ready_event', units=['ready'], file='c07_ready.c', defs={'H_EVENT': None}, unwind=4, bound='one poll event for a peer descriptor with pending writes, every Read/Write/Hangup/Shutdown flag combination, the readable handler closing the peer or not', desc='every writable event leads to exactly one drain attempt (also when readable too); readable handled first; a peer closed while reading is not an error'),
+  dict(name='ready_queue', units=['ready'], file='c07_ready.c', defs={'H_QUEUE': None}, unwind=5, bound='write-mailbox event with 0..2 posted entries for arbitrary descriptors (two peers + one unknown), queues of length 0..2 before', desc='handleWriteQueue (real code): entries appended in order under the lock; a queue made non-empty has Read|Write interest armed; unknown descriptors dropped'),
   inst(1, 3, 2, ('quick', 'thorough')),
   inst(2, 2, 2, ('quick', 'thorough')),
   inst(2, 2, 3, ('quick', 'thorough')),
@@ -20,8 +24,9 @@ HARNESSES = [
   inst(2, 4, 4, ('thorough',), timeout=3000),
   inst(3, 2, 3, ('thorough',), hard=True, timeout=3000),
 ]
-ASSUMPTIONS = ['sel mode: std::deque<WriteEntry> / unordered_map<Fd,deque> / unique_lock<mutex> / shared_ptr<Core> are ghost models at method boundaries (deque elements are exact-size heap blocks freed by pop_front, so a dangling `buffer` reference is a use-after-free)',
+ASSUMPTIONS = ['ready_event / ready_queue: Transport::onReady and handleWriteQueue translated; handleIncoming, asyncWriteImpl, the other mailbox handlers, isPeerFd/getPeer and Queue::popSafe are recording stubs; FdSet, toWrite, lock_guard are ghost models',
+               'sel mode: std::deque<WriteEntry> / unordered_map<Fd,deque> / unique_lock<mutex> / shared_ptr<Core> are ghost models at method boundaries (deque elements are exact-size heap blocks freed by pop_front, so a dangling `buffer` reference is a use-after-free)',
                'Resolver::operator() / Rejection::operator() are recording stubs (the promise core itself is C11)',
                '::send / ::sendfile: each call accepts an arbitrary count in 1..len (0 for len 0) or fails with EAGAIN (and, in the _err harness, EPIPE or another errno); the last invocation of a script accepts everything (the peer keeps reading)',
                'a later invocation happens only if write interest was armed (the writable event); the cross-thread half (issue order into toWrite) is the FIFO clause of C13']
-OUTSIDE = ['TLS paths (PISTACHE_USE_SSL)', 'real sockets and the kernel', 'handleWriteQueue / asyncWrite enqueueing (C13 covers the queue)', 'more than the stated number of entries, bytes or invocations']
+OUTSIDE = ['TLS paths (PISTACHE_USE_SSL)', 'real sockets and the kernel (edge-triggered epoll semantics are the stated environment assumption of the invariant argument)', 'the cross-thread mailbox itself (C13)', 'more than the stated number of entries, bytes or invocations']
